@@ -1,4 +1,5 @@
 import Ln.Basic
+import Ln.Commit
 import Pl.OneShot
 
 /-! # C12 — property theorems (statements only; proofs live in the family libraries) -/
@@ -25,6 +26,18 @@ theorem counted_once :
     (hsingle : np c ≤ 1 → replays.count c = 1),
     (counted np replays []).count c = 1 :=
   @OneShot.counted_once
+end
+
+section
+open Ln
+
+/-- a non-merge commit as a whole: added + changed = inserted lines, removed + changed = deleted lines, summed over
+the changed files (whole-file insertions and deletions included; binary files contribute nothing) -/
+theorem commit_conserves :
+    ∀ (cs : List Chg) (h : ∀ c ∈ cs, okChg c),
+    ((consume false cs).map fun p => p.2.added + p.2.changed).sum = (cs.map chgInserted).sum ∧
+    ((consume false cs).map fun p => p.2.removed + p.2.changed).sum = (cs.map chgDeleted).sum :=
+  @Ln.commit_conserves
 end
 
 end Props.C12
